@@ -4,6 +4,6 @@ CONSTANTS
   Depth = 3
   MaxLen = 2
   WideDepth = 2
-  RowBudget = 20
+  RowBudget = 12
 INVARIANTS Typed ThmRoundTrip ThmLevels ThmInjective ThmCount
 CHECK_DEADLOCK FALSE
